@@ -1131,7 +1131,9 @@ func (f ForkId) forkId(buf *strings.Builder, start int) (bool, error) {
 					part.Id.GoString(),
 			}
 		} else if alen == 0 {
-			return forkIndex == 0, nil
+			// Nothing to index in an empty source.  The parts up to this one
+			// still have to tell this fork from its siblings.
+			break
 		}
 		if err := r.Allow(part.Id); err != nil {
 			return forkIndex == 0, err
